@@ -30,8 +30,9 @@ type Op struct {
 	Raw       *string         `json:"raw,omitempty"`    // body that is not well-formed JSON
 	RawB64    string          `json:"rawB64,omitempty"` // body that is not valid UTF-8
 	NoBody    bool            `json:"noBody,omitempty"`
-	Pad       int             `json:"pad,omitempty"`     // the body is blown up by this many bytes when sent (kept out of the plan text)
-	PadKind   string          `json:"padKind,omitempty"` // space: JSON whitespace after the value | field: an unknown string field
+	CType     string          `json:"contentType,omitempty"` // request Content-Type; empty: application/json; "-": no such header
+	Pad       int             `json:"pad,omitempty"`         // the body is blown up by this many bytes when sent (kept out of the plan text)
+	PadKind   string          `json:"padKind,omitempty"`     // space: JSON whitespace after the value | field: an unknown string field
 	padded    []byte
 	Transport *Transport `json:"transport,omitempty"`
 
